@@ -30,6 +30,7 @@ META = {
                     "renderings of the symbolic integers (FieldStr)"],
 }
 META["explanation"] += '  sort2-second-graph-in-process: the same records sorted against another build of the graph (same names, other tags) earlier in the same execution.  tokens/cli/sort.py: the path tokenizer decided as a language by z3.'
+META["explanation"] += "  cmp/pair-large-tags and sort2-large-tags: every tag >= 300 (beyond CPython's small-integer cache)."
 
 PATH_MENU = [">s1", "<s1", ">s1>x1", "<x1<s1", ">x1>s2", ">s1>x1>s2", "<s2<x1<s1", ">s1<s2", ">x1", ">t1", ">s1<x1<s2"]
 
